@@ -160,6 +160,18 @@ def run(ctx):
             cases.append(j)
             ntl += 1
     ctx.note("delay_duration_neighbourhood_trees", ntl)
+    rx = ctx.tlc("MC_HedRules", "MC_HedRules_dex.cfg", workers=1, label="one definition as Def tag and as Def-expand group in one annotation", timeout=3000)
+    ndx = 0
+    for j in rx.json_lines:
+        k = json.dumps([j["par"], j["kind"]])
+        if k not in seen and "dex" in j["kind"] and "def" in j["kind"]:
+            seen.add(k)
+            if "TAG_EXPRESSION_REPEATED" in j["codes"] and "TAG_EMPTY" not in j["codes"]:
+                j["dup"] = True
+            j["always"] = True
+            cases.append(j)
+            ndx += 1
+    ctx.note("def_and_def_expand_trees", ndx)
     versions = [v for v, _ in facts.bundled()]
     jobs = []
     for vi, v in enumerate(versions):
